@@ -43,6 +43,7 @@ struct Stats {
     nontrivial: usize,
     by_kind: BTreeMap<String, usize>,
     by_effect: BTreeMap<String, usize>,
+    by_class: BTreeMap<String, usize>,
     samples: Vec<Value>,
 }
 
@@ -59,6 +60,9 @@ impl Stats {
         }
         for (k, v) in o.by_effect {
             *self.by_effect.entry(k).or_default() += v;
+        }
+        for (k, v) in o.by_class {
+            *self.by_class.entry(k).or_default() += v;
         }
         for s in o.samples {
             if self.samples.len() < 8 {
@@ -139,6 +143,7 @@ fn do_state(line: &Value, fanlines: &[Vec<String>], biglines: &[Vec<String>], ou
             let obs = run_case(&argv, &script);
             st.cases += 1;
             *st.by_kind.entry(kind_of(lines).into()).or_default() += 1;
+            *st.by_class.entry(c["cls"].as_str().unwrap_or("?").into()).or_default() += 1;
             let eff = effect_of(&line["s"], &evs);
             *st.by_effect.entry(eff.into()).or_default() += 1;
             if eff != "unchanged" {
@@ -167,6 +172,7 @@ fn do_state(line: &Value, fanlines: &[Vec<String>], biglines: &[Vec<String>], ou
             let script = script_of(&[], &[]);
             let obs = run_case(&argv, &script);
             st.starts += 1;
+            *st.by_class.entry(format!("sh:{}", c["cls"].as_str().unwrap_or("?"))).or_default() += 1;
             let exp: Vec<Value> = c["evs"].as_array().cloned().unwrap_or_default();
             if let Some((at, field)) = compare(k, &exp, &obs) {
                 st.mismatches += 1;
@@ -234,7 +240,7 @@ fn replay(args: &[String]) {
     println!(
         "{}",
         json!({"states": t.states, "cases": t.cases, "starts": t.starts, "unspec": t.unspec, "mismatches": t.mismatches,
-               "nontrivial": t.nontrivial, "by_kind": t.by_kind, "by_effect": t.by_effect, "samples": t.samples,
+               "nontrivial": t.nontrivial, "by_kind": t.by_kind, "by_effect": t.by_effect, "by_class": t.by_class, "samples": t.samples,
                "fan": fanlines.len(), "bigfan": biglines.len()})
     );
 }
